@@ -907,6 +907,36 @@ func ruleMarshalCover(r *Run) {
 				})
 				r.Check("marshal-cover", typeName(named)+"."+fv.Name(), fv.Pos(), encoded,
 					fmt.Sprintf("custom %s.MarshalXML (%s) must pass field %s to the encoder", typeName(named), p.pos(fn.Pos()), fv.Name()))
+				if encoded {
+					// …and on EVERY path that reports success the field is at least looked at (read for
+					// encoding, or tested for absence).  A fast path that returns without reading the field
+					// writes the element without it whatever the field holds.
+					var reads []ssa.Instruction
+					allInstrs(fn, func(in ssa.Instruction) {
+						switch x := in.(type) {
+						case *ssa.FieldAddr:
+							if f2, base := fieldOfAddr(x); f2 == fv && stripLoads(base) == ssa.Value(recv) {
+								reads = append(reads, x)
+							}
+						case *ssa.Field:
+							if f2, base := fieldOfVal(x); f2 == fv && stripLoads(base) == ssa.Value(recv) {
+								reads = append(reads, x)
+							}
+						}
+					})
+					okAll := len(reads) > 0
+					ei := errorResultIndex(fn.Signature)
+					for _, ret := range returnsOf(fn) {
+						if ei >= 0 && !possiblyNilError(p, retResult(ret, ei), ret.Block()) {
+							continue
+						}
+						if !mustPassThrough(fn, ret, reads) {
+							okAll = false
+						}
+					}
+					r.Check("marshal-cover", typeName(named)+"."+fv.Name()+":every-path", fv.Pos(), okAll,
+						fmt.Sprintf("custom %s.MarshalXML (%s): every path that returns success must have read field %s (to encode it or to find it absent); a path that skips it writes the element without that content", typeName(named), p.pos(fn.Pos()), fv.Name()))
+				}
 			}
 		}
 	}
